@@ -11,6 +11,7 @@ EXTENDS InstancesOps, TLC, Json
 
 CONSTANTS Templates,      \* names of the templates the driver can build
           MultiTemplates, \* templates used for repeated collapses
+          VisTemplates,   \* templates collapsed under every visgroup mode
           Origins,        \* subset of 1..3
           Tables,         \* subset of 0..3   ($fixup tables of the driver)
           Triples,        \* TRUE: also sequences of three
@@ -31,9 +32,15 @@ Pool == { Inst(<<65>>, <<0, 0, 0>>, 1, 0, 1), Inst(<<66>>, <<0, 1, 0>>, 2, 0, 1)
 Multis == {[t |-> t, insts |-> <<a, b>>] : t \in MultiTemplates, a \in Pool, b \in Pool}
           \cup (IF Triples THEN {[t |-> t, insts |-> <<a, b, c>>] : t \in MultiTemplates, a \in Pool, b \in Pool, c \in Pool}
                 ELSE {})
-Scenarios == Singles \cup Multis
+\* visgroup handling: 0 strip (default; the scenarios above), 1 keep the file's visgroups, 2 one visgroup for all
+WithVg(S, g) == {[t |-> x.t, insts |-> x.insts, vg |-> g] : x \in S}
+VisSingles == {[t |-> t, insts |-> <<Inst(<<65>>, a, o, d[1], d[2])>>] :
+                  t \in VisTemplates, a \in {<<0, 0, 0>>, <<0, 1, 0>>, <<1, 3, 0>>, <<0, 2, 1>>}, o \in Origins,
+                  d \in {x \in Diagonal : x[2] \in Tables}}
+VisMultis == {[t |-> t, insts |-> <<a, b>>] : t \in VisTemplates \cap MultiTemplates, a \in Pool, b \in {Inst(<<66>>, <<0, 1, 0>>, 2, 0, 1)}}
+Scenarios == WithVg(Singles \cup Multis, 0) \cup WithVg(VisSingles \cup VisMultis, 1) \cup WithVg(VisSingles \cup VisMultis, 2)
 
-Init == sc = [t |-> "none", insts |-> <<>>]
+Init == sc = [t |-> "none", insts |-> <<>>, vg |-> 0]
 Next == sc.t = "none" /\ sc' \in Scenarios
 Spec == Init /\ [][Next]_sc
 \* every rotation of the lattice is reached by an instance, and every scenario instance is one
